@@ -35,6 +35,29 @@ def gen(rng, n, tier):
         yield {'ctx': ctx, 'seed': rng.randrange(1 << 30), 'n': PER_CTX}
 
 
+def corpus():
+    """exponents that themselves need a unit conversion, with values whose float arithmetic is exact"""
+    fam = {'stores': [None], 'defs': [
+        {'kind': 'def', 'store': 0, 'name': 'ms', 'elems': [{'units': 'second', 'prefix': 'milli'}]},
+        {'kind': 'def', 'store': 0, 'name': 'cm', 'elems': [{'units': 'metre', 'prefix': 'centi'}]},
+        {'kind': 'def', 'store': 0, 'name': 'm2', 'elems': [{'units': 'metre', 'exponent': '2'}]},
+        {'kind': 'def', 'store': 0, 'name': 'pct', 'elems': [{'units': 'dimensionless', 'multiplier': '0.01'}]},
+        {'kind': 'def', 'store': 0, 'name': 'pct2', 'elems': [{'units': 'pct', 'exponent': '2'}]}]}
+    u = lambda n: [[0, n, '1']]
+    ctx = {'family': fam, 'units': [u('ms'), u('cm'), u('m2'), u('pct'), u('second'), u('metre'), u('dimensionless')],
+           'vars': [{'name': 'x', 'unit': u('cm'), 'init': None}, {'name': 'p', 'unit': u('pct'), 'init': None},
+                    {'name': 'd', 'unit': u('dimensionless'), 'init': None}]}
+    two = ['mul', ['qty', '4', u('second')], ['pow', ['qty', '2000', u('ms')], ['int', -1]]]
+    jobs = [[['pow', ['var', 0], two], u('m2')], [['pow', ['var', 0], two], None],
+            [['pow', ['var', 1], two], u('dimensionless')], [['pow', ['var', 1], two], u('pct2')],
+            [['add', ['var', 1], ['fn1', 'exp', ['var', 2]]], u('dimensionless')],
+            [['add', ['var', 1], ['fn1', 'exp', ['var', 2]]], None],
+            [['rel', 'Eq', ['var', 1], ['fn1', 'exp', ['var', 2]]], None],
+            [['pw', [[['var', 1], ['rel', 'Lt', ['var', 2], ['int', 1]]], [['fn1', 'cos', ['var', 2]], 'tt']]], None],
+            [['add', ['var', 1], ['int', 2]], u('pct')]]
+    return [{'ctx': ctx, 'explicit': jobs}]
+
+
 def jobs_of(case):
     """Deterministically regenerate (ast, target unit-expr or None) pairs."""
     ctx = case['ctx']
@@ -195,6 +218,8 @@ def compare(case, obs, replies):
             pass
         elif o[3][0] == 'err' and o[3][1] not in UNIT_ERRORS and magnitude_trigger(o[1], o[3][1]):
             pass   # Python arithmetic on an untracked magnitude (known findings of C04) pre-empts the model's verdict
+        elif ms[0] == 'err' and ms[1].startswith('Other:'):
+            pass   # the model's approximate magnitude tracking predicts a Python exception: inconclusive
         elif ms[0] == 'err':
             if o[3][0] != 'err' or o[3][1] != ms[1].replace('Other:', ''):
                 return '%s: strict inference of the result: model %s, implementation %s' % (where, ms, o[3])
@@ -212,7 +237,7 @@ def compare(case, obs, replies):
             if isinstance(a, bool) or isinstance(b, bool):
                 if a != b:
                     return '%s: result truth value differs: model %s, implementation %s' % (where, a, b)
-            elif not U.close(a, b, 1e-9):
+            elif not near(a, b, absolute=mpmath.mpf(10) ** -11 * leaf_size(o[1], rho) ** 2):
                 return '%s: result value differs: model %s, implementation %s' % (where, mpmath.nstr(a, 15), mpmath.nstr(b, 15))
     return None
 
@@ -278,9 +303,18 @@ def oracle(case, obs):
             elif not magnitude_trigger(rtree, strict[1]):
                 fails.append({'key': 'non-UnitError:' + strict[1] + ':unexplained',
                               'detail': 'evaluate_units(result) raised %s for %s' % (strict[1], json.dumps(rtree)[:300])})
-        elif strict[2] is False:
-            fails.append({'key': 'result-not-in-target-unit', 'detail': '%s -> %s: result is in %s'
-                          % (json.dumps(t)[:300], tgt, strict[1])})
+        elif strict[2] is False and tsem is not None and not is_eq:
+            # judge equivalence ourselves from the base-unit expansion: is_equivalent() is exact on float exponents, and a
+            # non-dyadic exponent (2.54 * (1/2.54)) leaves float noise that is outside the exact model
+            import re
+            f, dd = U.parse_base_format(strict[1])
+            wantd = {re.sub(r'^\[\d+:(.*)\]$', r'\1', U.PINT_BASE.get(k, k)): v for k, v in tsem.dims.items()}
+            if not U.close(f, tsem.scale, 1e-9) or not U.dims_close(dd, wantd):
+                fails.append({'key': 'result-not-in-target-unit', 'detail': '%s -> %s: result is in %s'
+                              % (json.dumps(t)[:300], tgt, strict[1])})
+        elif strict[2] is False and is_eq:
+            fails.append({'key': 'equation-sides-not-equivalent', 'detail': '%s: after conversion the two sides are in '
+                          'different units (%s)' % (json.dumps(t)[:300], strict[1])})
         # (a) value
         if not is_eq and strict[0] == 'ok':
             rscale = tsem.scale if tsem is not None else mpmath.mpf(U.parse_base_format(strict[1])[0])
@@ -289,7 +323,7 @@ def oracle(case, obs):
                     got = ph.plain(rtree, rho)
                 except (X.Unsupported, ZeroDivisionError, OverflowError, KeyError, X.Inconsistent):
                     continue
-                if not U.close(got * rscale, v, 1e-9):
+                if not near(got * rscale, v * 1, absolute=mpmath.mpf(10) ** -11 * leaf_size(rtree, rho) ** 2 * rscale):
                     key = 'value-changed'
                     h = heads(t)
                     if 'floor' in h or 'ceil' in h:
@@ -306,6 +340,27 @@ def oracle(case, obs):
                           'detail': '%s -> %s: nothing was converted but a different object was returned'
                           % (json.dumps(t)[:300], tgt)})
     return fails[:6]
+
+
+def near(a, b, rel=1e-9, absolute=1e-20):
+    a, b = mpmath.mpf(a), mpmath.mpf(b)
+    return abs(a - b) <= rel * max(abs(a), abs(b)) or abs(a - b) <= absolute
+
+
+def leaf_size(t, rho):
+    """largest magnitude among the numeric leaves and variable values: sums may cancel to 0, and the float conversion
+    factors then leave noise of this size times 1e-16"""
+    m = mpmath.mpf(1)
+    if isinstance(t, list) and t:
+        if t[0] == 'qty':
+            return max(m, abs(mpmath.mpf(Fraction(t[1]).numerator) / Fraction(t[1]).denominator))
+        if t[0] == 'cf':
+            return max(m, U.scale_value(['scale'] + t[1]))
+        if t[0] == 'var':
+            return max(m, abs(rho.get(t[1], 1)))
+        for x in t[1:]:
+            m = max(m, leaf_size(x, rho))
+    return m
 
 
 def has_bool_cond(t):
